@@ -124,6 +124,18 @@ def simpleOp (f : Bytes → Bytes) (what : String) : List String → String
     | _, _ => if out == "PANIC" then propfail "panic" else "BADLINE"
   | _ => "BADLINE"
 
+/-- the CRLF conversion alone: the oracle (`toLf` agrees on input and output — only line-break
+    spelling changed) is applied to the real output before the model is compared -/
+def crlfOp : List String → String
+  | [inp, out] =>
+    match ofHex inp, ofHex out with
+    | some i, some o =>
+      if toLf o != toLf i then propfail "crlf-conversion-changes-more-than-line-breaks"
+      else if crlfNormalize o != o then propfail "crlf-conversion-leaves-a-lone-lf"
+      else if crlfNormalize i == o then "ok" else mismatch "crlf" (crlfNormalize i)
+    | _, _ => if out == "PANIC" then propfail "panic" else "BADLINE"
+  | _ => "BADLINE"
+
 def qpOp : List String → String
   | [inp, out] =>
     match ofHex inp, ofHex out with
